@@ -212,19 +212,24 @@ def Sim.openAll : Nat → Sim → Sim
 
 def Sim.total (s : Sim) : Nat := s.n
 
+/-- Resolve open futures and setting-keyspace futures until none is left (a resolved setting future can push a
+new open future: the retry after a requested-shard miss). -/
+def Sim.resolve : Nat → Sim → Sim
+  | 0, s => s
+  | fuel + 1, s =>
+    let s := s.openAll 16
+    let s := s.settle 16
+    if s.pool.opening = 0 then s else Sim.resolve fuel s
+
 /-- Run the refiller until the pool is full or nothing more happens (`rounds` refills at most). -/
 def Sim.quiesce : Nat → Sim → Sim
-  | 0, s => s
+  | 0, s => s.connErrors.resolve 8
   | rounds + 1, s =>
     let s := s.connErrors
-    let s := s.settle 16
+    let s := s.resolve 8
     if s.pool.isFull then s
     else if !s.pool.needFilling then s
-    else
-      let s := s.ev .refill
-      let s := s.openAll 16
-      let s := s.settle 16
-      Sim.quiesce rounds s
+    else Sim.quiesce rounds (s.ev .refill)
 
 def Sim.liveKs (s : Sim) (shard : Option Nat) : List String :=
   (s.pool.conns.filter fun i => !(s.pool.net i).broken && (shard.isNone || shard == some (s.pool.net i).shard)).map
@@ -239,13 +244,19 @@ def Sim.query (s : Sim) (shard : Nat) (implTok : String) : String :=
   else if cands.any (fun k => "q" ++ k == implTok) then implTok
   else "q" ++ cands.headD "?" ++ "(model)"
 
+/-- Connections the driver still holds (published, excess, or having their keyspace set) and that are not
+broken: the others were dropped (excess cleared, reshard, requested-shard miss), i.e. closed. -/
+def Sim.alive (s : Sim) (i : Nat) : Bool :=
+  !(s.pool.net i).broken &&
+    (s.pool.conns.contains i || s.pool.excess.contains i || s.pool.setting.any (·.1 == i))
+
 def Sim.row (s : Sim) (i : Nat) : String :=
   ">".intercalate ((s.pool.net i).acked.map fun v => match s.nameIdx v with | some j => toString j | none => "?")
 
 /-- The live connection with the smallest (acknowledged-USE history, shard, id). -/
 def Sim.victim (s : Sim) (shard : Option Nat) : Option Nat :=
   let live := (List.range s.pool.nextId).filter fun i =>
-    !(s.pool.net i).broken && (shard.isNone || shard == some (s.pool.net i).shard)
+    s.alive i && (shard.isNone || shard == some (s.pool.net i).shard)
   live.foldl (fun best i => match best with
     | none => some i
     | some b =>
@@ -253,7 +264,7 @@ def Sim.victim (s : Sim) (shard : Option Nat) : Option Nat :=
       else some b) none
 
 def Sim.list (s : Sim) : String :=
-  let rows := (List.range s.pool.nextId).filter (fun i => !(s.pool.net i).broken) |>.map s.row
+  let rows := (List.range s.pool.nextId).filter s.alive |>.map s.row
   let sorted := rows.toArray.qsort (· < ·) |>.toList
   "l[" ++ ",".intercalate sorted ++ "]"
 
@@ -303,8 +314,8 @@ def Sim.steps : List String → List String → Sim → List String → Option (
     | "H" =>
       let s := s.connErrors
       let s := s.settle 16
-      let s := if s.pool.needFilling then (s.ev .refill).openAll 16 else s
-      let s := s.settle 16
+      let s := if s.pool.needFilling then s.ev .refill else s
+      let s := s.resolve 8
       let pending := s.pool.setting.any fun e => s.held.contains e.1 && !(s.pool.net e.1).broken
       Sim.steps rest (impl.drop 1) s ((if pending then "h" else "h-") :: acc)
     | "G" =>
